@@ -84,6 +84,14 @@ func (e *Env) with(vars map[string]SVal) *Env {
 	return &n
 }
 
+// old0 is the state in which assigns-clauses locate objects (the pre-state).
+func (e *Env) old0() *State {
+	if e.old != nil {
+		return e.old
+	}
+	return e.cur
+}
+
 func (e *Env) fail(format string, args ...interface{}) {
 	panic(fmt.Sprintf("spec: "+format, args...))
 }
@@ -539,6 +547,9 @@ func (e *Env) call(x *ECall) SVal {
 	if len(args) != len(m.Params) {
 		e.fail("%s expects %d arguments, got %d", x.Fn, len(m.Params), len(args))
 	}
+	if m.L1Only && !e.g.L.layer1 {
+		return bv(TTrue)
+	}
 	if e.depth > 40 {
 		e.fail("macro recursion too deep in %s", x.Fn)
 	}
@@ -628,8 +639,8 @@ func (g *Gen) bigVal(st *State, a Term, t types.Type) Term {
 		return g.load(st, "BigInt.val", a, SInt)
 	}
 	in := g.load(st, "BigInt._inner", a, SInt)
-	w0 := g.load(st, "cell.Word", Add(a, IntLit(1)), SInt)
-	w1 := g.load(st, "cell.Word", Add(a, IntLit(2)), SInt)
+	w0 := g.load(st, "cell.uint", Add(a, IntLit(1)), SInt)
+	w1 := g.load(st, "cell.uint", Add(a, IntLit(2)), SInt)
 	mag := Add(w0, Mul(BigLit(pow2_64), w1))
 	return Ite(Eq(in, IntLit(0)), mag, Ite(Eq(in, IntLit(negSentinelAddr)), Neg(mag), g.load(st, "MathBig.val", in, SInt)))
 }
@@ -640,12 +651,12 @@ func (g *Gen) bigRep(st *State, a Term) Term {
 		return TTrue
 	}
 	in := g.load(st, "BigInt._inner", a, SInt)
-	w0 := g.load(st, "cell.Word", Add(a, IntLit(1)), SInt)
-	w1 := g.load(st, "cell.Word", Add(a, IntLit(2)), SInt)
+	w0 := g.load(st, "cell.uint", Add(a, IntLit(1)), SInt)
+	w1 := g.load(st, "cell.uint", Add(a, IntLit(2)), SInt)
 	words := And(Le(IntLit(0), w0), Lt(w0, BigLit(pow2_64)), Le(IntLit(0), w1), Lt(w1, BigLit(pow2_64)))
 	negNonZero := Implies(Eq(in, IntLit(negSentinelAddr)), Not(And(Eq(w0, IntLit(0)), Eq(w1, IntLit(0)))))
-	// heap form: handle is a live math/big object that is neither nil nor the sentinel
-	return And(words, negNonZero, Ge(in, IntLit(0)))
+	// heap form: handle is a live (already allocated) math/big object
+	return And(words, negNonZero, Ge(in, IntLit(0)), Lt(in, st.cnt))
 }
 
 // ---------------------------------------------------------------- printing
